@@ -104,6 +104,8 @@ def make_storage(kind, path):
         return FaultyStorage(path)
     if kind == 'pathstr':
         return str(path)
+    if kind == 'pathobj':
+        return Path(path)
     if kind == 'fsspec-local':
         return LocalFsspecStorage(str(path))
     if kind == 'fsspec-memory':
